@@ -406,16 +406,13 @@ def errnoOf : Exc → String
   | .other _ => "5"
   | .noSuchProcess => "5"
 
-/-- attach callbacks to an already created top-level future; if it has completed meanwhile
-    (it is no longer in the table) run them now with its recorded outcome -/
-def attachOrRun (tid : Nat) (cb : TopCb) (done : Option Val) : M Unit := do
+/-- `future.add_done_callback(cb)`: attached when pending, otherwise scheduled on the ready queue -/
+def addDoneCallback (tid : Nat) (cb : TopCb) : M Unit := do
   let s ← getS
   if (s.tops.find? (·.tid = tid)).isSome then
     modS fun s => { s with tops := s.tops.map fun t => if t.tid = tid then { t with cbs := t.cbs ++ [cb] } else t }
   else
-    match done with
-    | some v => runTopCb v cb
-    | none => pure ()
+    enqueue (.topCb cb ((s.doneVals.lookup tid).getD .unit))
 
 /-- `Controller.handle_message` + `dispatch` -/
 def handleMessage (cid : Option String) (msg : Option JVal) : M Unit := do
@@ -445,16 +442,8 @@ def handleMessage (cid : Option String) (msg : Option JVal) : M Unit := do
           -- Kill.execute raised inside its own coroutine
           if waiting then sendReply cid mid cast "error" "6" "-" else sendReply cid mid cast "ok" "-" "-"
         else
-          let s ← getS
-          let pending := (s.tops.find? (·.tid = tid)).isSome
-          if pending then
-            attachOrRun tid (.reply cid mid cast cmd waiting xform) none
-            if !waiting then sendReply cid mid cast "ok" "-" "-"
-          else
-            -- the coroutine finished within this call; its outcome was stored by `deliver`
-            let v := (s.doneVals.lookup tid).getD .unit
-            if !waiting then sendReply cid mid cast "ok" "-" "-"
-            runTopCb v (.reply cid mid cast cmd waiting xform)
+          addDoneCallback tid (.reply cid mid cast cmd waiting xform)
+          if !waiting then sendReply cid mid cast "ok" "-" "-"
     | _ => sendReply cid mid cast "error" "2" "-"
 
 end Circus.Core
